@@ -8,6 +8,7 @@ import (
 	"strings"
 
 	"golang.org/x/tools/go/ssa"
+	"golang.org/x/tools/go/ssa/ssautil"
 )
 
 // structuralObligations discharges the `structural` declarations tagged with
@@ -33,6 +34,9 @@ func (eng *Engine) structuralObligations(prop string) []*Obligation {
 			continue
 		}
 		name := fmt.Sprintf("%s/structural/%s %s in %s", shortenPaths(sd.PkgPath+"/"), sd.Kind, sd.Target, strings.Join(sd.In, "|"))
+		if sd.Nowhere {
+			name += "nowhere"
+		}
 		if sd.Value != "" {
 			name += " value " + sd.Value
 		}
@@ -45,7 +49,7 @@ func (eng *Engine) structuralObligations(prop string) []*Obligation {
 				bad = append(bad, fmt.Sprintf("function %s named by the declaration does not exist", f))
 			}
 		}
-		if sites == 0 && len(bad) == 0 {
+		if sites == 0 && len(bad) == 0 && !sd.Nowhere {
 			bad = append(bad, fmt.Sprintf("no %s site of %s found in package %s: the declaration no longer binds to the code", sd.Kind, sd.Target, pi.Types.Name()))
 		}
 		if len(bad) == 0 {
@@ -96,14 +100,68 @@ func (eng *Engine) pkgFunctions(pi *PkgInfo) []*ssa.Function {
 			}
 		}
 	}
+	// instances of this package's generic functions and methods (their bodies carry the
+	// concrete calls and stores; the generic originals of methods are not in any method set)
+	var inst []*ssa.Function
+	for f := range ssautil.AllFunctions(eng.prog) {
+		if o := f.Origin(); o != nil && o.Pkg == pi.SSA && len(f.Blocks) > 0 && closedInstance(f) {
+			inst = append(inst, f)
+		}
+	}
+	sort.Slice(inst, func(i, j int) bool { return inst[i].String() < inst[j].String() })
+	for _, f := range inst {
+		visit(f)
+	}
 	return fns
+}
+
+// closedInstance: every type argument of the instance is a concrete type (instances
+// reached only from the body of a generic original still mention its type parameters).
+func closedInstance(f *ssa.Function) bool {
+	var open func(t types.Type, d int) bool
+	open = func(t types.Type, d int) bool {
+		if d > 8 {
+			return false
+		}
+		switch u := t.(type) {
+		case *types.TypeParam:
+			return true
+		case *types.Named:
+			if ta := u.TypeArgs(); ta != nil {
+				for i := 0; i < ta.Len(); i++ {
+					if open(ta.At(i), d+1) {
+						return true
+					}
+				}
+			}
+		case *types.Pointer:
+			return open(u.Elem(), d+1)
+		case *types.Slice:
+			return open(u.Elem(), d+1)
+		case *types.Array:
+			return open(u.Elem(), d+1)
+		case *types.Map:
+			return open(u.Key(), d+1) || open(u.Elem(), d+1)
+		}
+		return false
+	}
+	for _, t := range f.TypeArgs() {
+		if open(t, 0) {
+			return false
+		}
+	}
+	return true
 }
 
 func allowedIn(f *ssa.Function, in []string) bool {
 	for g := f; g != nil; g = g.Parent() {
 		n := localName(g)
+		if g.Origin() != nil {
+			n = localName(g.Origin()) // an instance of a generic function goes by its origin's name
+		}
+		ns := stripTypeParams(n)
 		for _, a := range in {
-			if a == n {
+			if a == n || a == ns {
 				return true
 			}
 		}
@@ -127,6 +185,7 @@ func (eng *Engine) scanStructural(pi *PkgInfo, sd *Structural) (bad []string, si
 	}
 	matchName := func(name string) bool {
 		name = strings.TrimSuffix(strings.TrimSuffix(name, "$bound"), "$thunk")
+		name = stripTypeParams(name) // instances of generic functions and methods go by the generic's name
 		if name == target || name == pkgName+"."+target {
 			return true
 		}
